@@ -447,6 +447,7 @@ func (cache *dirCache) clean(highWaterMark, lowWaterMark uint64) uint64 {
 		}
 		return entries[i].Atime < entries[j].Atime
 	})
+	verifOp("clean-sorted", cache.Dir)
 	for _, entry := range entries {
 		if _, marked := cache.isMarked(entry.Path); marked {
 			continue
